@@ -1,13 +1,190 @@
-(* C11 - the property theorems, and nothing else. *)
-From VF Require Import Clock.Model Clock.Spec Clock.Proofs.
+(* C11 - the property theorems, and nothing else.
+
+   Vocabulary (Model.v / Spec.v): [run c evs] is the state of the model of
+   SuspendableClock after the history [evs] (configuration c =
+   maximumSuspension, timeoutThreshold); [step] produces the observable
+   output of one more event.  [timeline evs] is the specification's own
+   account of time: wall-clock time [tl_now] and true unsuspended time
+   [tl_uns] (time during which no storage call was in flight), computed
+   from the events alone.  [births evs] lists, per context in creation
+   order, the creation instant T0, the unsuspended time U0 at creation and
+   the timeout d.  Events about a context are Arm (the loop goroutine's
+   next step), Fire tf (base timer value tf, at or after its deadline and
+   not in the future), Cancel, BaseExpire (the base context, created with
+   d + maximumSuspension, expires). *)
+From VF Require Import Clock.Model Clock.Spec Clock.Proofs Clock.ProofsThm.
+Open Scope list_scope.
 Open Scope Z_scope.
 
 (* The clock's bookkeeping (totalUnsuspended, unsuspensionStart,
-   suspensionCount) always equals the true unsuspended time of the
-   timeline, for every history. *)
+   suspensionCount) equals the true unsuspended time, for every history. *)
 Theorem accounting_exact : forall c evs,
   let s := run c evs in let t := timeline evs in
   s_now s = tl_now t /\ s_cnt s = tl_cnt t /\
   s_total s + (if Nat.eqb (s_cnt s) 0 then s_now s - s_ustart s else 0) = tl_uns t.
 Proof. exact accounting_exact_lemma. Qed.
 Print Assumptions accounting_exact.
+
+(* The property predicate that Corr.v evaluates on the traces recorded from
+   the Go code accepts every trace of the model. *)
+Theorem monitor_accepts_model : forall c evs, trace_ok c (trace c evs) = true.
+Proof. exact monitor_accepts_model_lemma. Qed.
+Print Assumptions monitor_accepts_model.
+
+(* A context reports DeadlineExceeded only if it has really run for more
+   than d - threshold of unsuspended time, or the wall-clock cap
+   T0 + d + maximumSuspension has been reached. *)
+Theorem deadline_sound : forall c evs e id dur T0 U0 d,
+  target e = Some id ->
+  snd (step c (run c evs) e) = ODone EDeadline dur ->
+  nth_error (births evs) id = Some (mkBirth T0 U0 d) ->
+  d - thr c < tl_uns (timeline evs) - U0 \/ T0 + d + maxSusp c <= tl_now (timeline evs).
+Proof. exact deadline_sound_lemma. Qed.
+Print Assumptions deadline_sound.
+
+(* A context that is still within its unsuspended budget and within the
+   wall-clock cap, and that nobody cancelled, is not done. *)
+Theorem within_budget_not_cancelled : forall c evs id T0 U0 d x,
+  nth_error (births evs) id = Some (mkBirth T0 U0 d) ->
+  nth_error (s_ctxs (run c evs)) id = Some x ->
+  tl_uns (timeline evs) - U0 <= d - thr c ->
+  tl_now (timeline evs) < T0 + d + maxSusp c ->
+  ~ In (Cancel id) evs ->
+  x_phase x <> PDone.
+Proof. exact within_budget_not_cancelled_lemma. Qed.
+Print Assumptions within_budget_not_cancelled.
+
+(* Canceled is only ever reported after a Cancel of that context. *)
+Theorem canceled_only_on_request : forall c evs e id dur,
+  target e = Some id ->
+  snd (step c (run c evs) e) = ODone ECanceled dur ->
+  In (Cancel id) (evs ++ [e]).
+Proof. exact canceled_only_on_request_lemma. Qed.
+Print Assumptions canceled_only_on_request.
+
+(* The duration reported through UnsuspendedDurationKey is the true
+   unsuspended time since creation: exactly on the cancellation / expiry
+   path; on the timer path it is exact up to the time by which the
+   goroutine processes the timer value late (now - tf), hence exact when
+   the value is processed at once, and always more than d - threshold. *)
+Theorem reported_duration_exact : forall c evs e id er dur T0 U0 d,
+  target e = Some id ->
+  snd (step c (run c evs) e) = ODone er dur ->
+  nth_error (births evs) id = Some (mkBirth T0 U0 d) ->
+  let U := tl_uns (timeline evs) - U0 in
+  match e with
+  | Fire _ tf => U - (tl_now (timeline evs) - tf) <= dur <= U /\ d - thr c < dur
+  | _ => dur = U
+  end.
+Proof. exact reported_duration_exact_lemma. Qed.
+Print Assumptions reported_duration_exact.
+
+(* Wall-clock bound, progress half: from T0 + d + maximumSuspension on, the
+   expiry of the base context is enabled; it ends a sleeping loop at once
+   with DeadlineExceeded, and a loop that is between two critical sections
+   at its next step. *)
+Theorem deadline_wall_bound_progress : forall c evs id T0 U0 d x,
+  nth_error (births evs) id = Some (mkBirth T0 U0 d) ->
+  nth_error (s_ctxs (run c evs)) id = Some x ->
+  T0 + d + maxSusp c <= tl_now (timeline evs) ->
+  match x_phase x with
+  | PArmed _ => snd (step c (run c evs) (BaseExpire id)) = ODone EDeadline (tl_uns (timeline evs) - U0)
+  | PArming _ =>
+    exists er, er <> ENone /\
+    snd (step c (fst (step c (run c evs) (BaseExpire id))) (Arm id)) = ODone er (tl_uns (timeline evs) - U0)
+  | PDone => True
+  end.
+Proof. exact expiry_progress_lemma. Qed.
+Print Assumptions deadline_wall_bound_progress.
+
+(* Wall-clock bound, safety half: after the expiry has been delivered at or
+   after T0 + d + maximumSuspension, whatever happens next, the loop never
+   again waits for a timer. *)
+Theorem deadline_wall_bound : forall c evs evs2 id T0 U0 d x,
+  nth_error (births evs) id = Some (mkBirth T0 U0 d) ->
+  T0 + d + maxSusp c <= tl_now (timeline evs) ->
+  nth_error (s_ctxs (run c (evs ++ BaseExpire id :: evs2))) id = Some x ->
+  forall dl, x_phase x <> PArmed dl.
+Proof. exact wall_bound_safety_lemma. Qed.
+Print Assumptions deadline_wall_bound.
+
+(* The timeout does fire: a base timer value processed without delay once
+   more than d - threshold of unsuspended time has been used ends the
+   context with DeadlineExceeded and the exact duration. *)
+Theorem deadline_complete : forall c evs id T0 U0 d x dl,
+  nth_error (births evs) id = Some (mkBirth T0 U0 d) ->
+  nth_error (s_ctxs (run c evs)) id = Some x ->
+  x_phase x = PArmed dl -> dl <= tl_now (timeline evs) ->
+  d - thr c < tl_uns (timeline evs) - U0 ->
+  snd (step c (run c evs) (Fire id (tl_now (timeline evs)))) = ODone EDeadline (tl_uns (timeline evs) - U0).
+Proof. exact deadline_complete_lemma. Qed.
+Print Assumptions deadline_complete.
+
+(* Termination of the re-arm loop: with a positive threshold the k-th
+   iteration happens no earlier than T0 + d + (k-1)*threshold. *)
+Theorem rearm_bounded : forall c evs id T0 U0 d,
+  0 < thr c ->
+  nth_error (births evs) id = Some (mkBirth T0 U0 d) ->
+  let k := rearms id (trace c evs) in
+  k <> 0%nat -> Z.of_nat k - 1 <= (tl_now (timeline evs) - T0 - d) / thr c.
+Proof. exact rearm_bounded_lemma. Qed.
+Print Assumptions rearm_bounded.
+
+(* The hypothesis 0 < threshold is needed: with threshold 0 the loop can
+   iterate any number of times while no time passes at all.  (Replayed on
+   the Go code: corpus/C11/spin-at-zero-threshold.json.) *)
+Theorem rearm_unbounded_at_zero_threshold : forall ms n,
+  exists evs, tl_now (timeline evs) = 0 /\ rearms 0 (trace (mkCfg ms 0) evs) = n.
+Proof. exact rearm_unbounded_at_zero_threshold_lemma. Qed.
+Print Assumptions rearm_unbounded_at_zero_threshold.
+
+(* ---- non-vacuity ------------------------------------------------------------------------ *)
+
+Definition sec : Z := 1000000000.
+Definition cfg1 : cfg := mkCfg (3600 * sec) (sec / 10).
+
+(* 5 s timeout, stalled on storage for 1 s: the first base timer (5 s) is
+   answered by a re-arm of 1 s, the second by DeadlineExceeded with a
+   reported duration of exactly 5 s, at wall-clock time 6 s. *)
+Definition h1 : list event :=
+  [NewCtx (5 * sec); Arm 0; Advance 2000000000; Suspend; Advance 1000000000; Resume;
+   Advance 2000000000; Fire 0 (5 * sec); Arm 0; Advance 1000000000; Fire 0 (6 * sec)].
+
+Example compensated_deadline :
+  map snd (trace cfg1 h1) =
+  [ONew (3605 * sec) (5 * sec); ONone; ONone; ONone; ONone; ONone; ONone; ORearm sec; ONone; ONone;
+   ODone EDeadline (5 * sec)]
+  /\ tl_now (timeline h1) = 6 * sec /\ tl_uns (timeline h1) = 5 * sec
+  /\ births h1 = [mkBirth 0 0 (5 * sec)].
+Proof. vm_compute. repeat split; reflexivity. Qed.
+
+(* the cap: stalled for longer than maximumSuspension *)
+Example capped_deadline :
+  map snd (trace (mkCfg (sec / 2) (sec / 10))
+    [NewCtx sec; Arm 0; Suspend; Advance 1500000000; BaseExpire 0]) =
+  [ONew (sec + sec / 2) sec; ONone; ONone; ONone; ODone EDeadline 0].
+Proof. vm_compute. reflexivity. Qed.
+
+(* cancellation by the executor after the command finished in 3 s, 1 s of
+   which stalled *)
+Example cancelled_within_budget :
+  map snd (trace cfg1
+    [NewCtx (5 * sec); Arm 0; Advance 1000000000; Storage KGet false true 1000000000;
+     Advance 1000000000; Cancel 0]) =
+  [ONew (3605 * sec) (5 * sec); ONone; ONone; OStor 1 0 1 1; ONone; ODone ECanceled (2 * sec)].
+Proof. vm_compute. reflexivity. Qed.
+
+(* the hypotheses of within_budget_not_cancelled are satisfiable *)
+Example within_budget_reachable :
+  let evs := [NewCtx (5 * sec); Arm 0; Advance 2000000000; Suspend; Advance 9000000000] in
+  nth_error (births evs) 0 = Some (mkBirth 0 0 (5 * sec)) /\
+  tl_uns (timeline evs) - 0 <= 5 * sec - thr cfg1 /\
+  tl_now (timeline evs) < 0 + 5 * sec + maxSusp cfg1 /\
+  ~ In (Cancel 0) evs /\
+  exists x, nth_error (s_ctxs (run cfg1 evs)) 0 = Some x /\ x_phase x = PArmed (5 * sec).
+Proof.
+  cbv zeta. split; [reflexivity|]. split; [vm_compute; discriminate|]. split; [vm_compute; reflexivity|].
+  split.
+  - intros H. repeat (destruct H as [H|H]; [discriminate|]). exact H.
+  - eexists. split; vm_compute; reflexivity.
+Qed.
